@@ -236,3 +236,8 @@ mod tests {
         check_strings(input_string, reverted);
     }
 }
+
+// verification hook (add-only, inert unless built by `cargo kani`, which sets --cfg kani)
+#[cfg(kani)]
+#[path = "/verif/kani/normalize_lines_harness.rs"]
+mod verif_kani;
